@@ -184,9 +184,12 @@ PRELUDE_RULE = ('. Every 4th case has a HISTORY: before the judged subscription 
                 '(disposed after k items / source error after k items / a consumer raising at item j / a take(j) peek) on a pushed source; '
                 'pipelines with a tee_map only get the kinds without a terminal event')
 PRELUDE_TAGS = ['after-aborted-subscriptions', 'prelude:dispose', 'prelude:source_error', 'prelude:consumer_raise', 'prelude:peek']
+# 'overlap' (a consumer swap: the new subscription is made before the old one is disposed, no item in between) is only used where
+# the judged operator is followed by nothing stateful (C04-C07): rxsci's context operators echo their outer events to every live
+# subscription of the operator object (their outer Subject belongs to the operator), so a second live chain sees each create twice
 
 
-def with_prelude(cases, rng, every=4, size=None, max_size=250):
+def with_prelude(cases, rng, every=4, size=None, max_size=250, overlap=False):
     """Gives every `every`-th case a HISTORY (case['prelude']): 1-3 aborted subscriptions of the very observable
     that then serves the judged subscription - disposed after k items, killed by a source error after k items,
     a consumer that raises at its j-th item, a take(j) peek.  See progs.play_prelude."""
@@ -195,7 +198,8 @@ def with_prelude(cases, rng, every=4, size=None, max_size=250):
         if n % every == 1 and 'prelude' not in case:
             sz = size(case) if size else len(case.get('items', ()))
             if sz <= max_size:
-                case = dict(case, prelude=[[r.choice(['dispose', 'source_error', 'consumer_raise', 'peek']), r.randint(0, max(1, sz))]
+                kinds = ['dispose', 'source_error', 'consumer_raise', 'peek'] + (['overlap'] if overlap else [])
+                case = dict(case, prelude=[[r.choice(kinds), r.randint(0, max(1, sz))]
                                            for _ in range(r.randint(1, 3))])
         yield case
 
